@@ -71,3 +71,23 @@ func Good_E5Rexamined_checked(id string) (string, error) {
 	}
 	return v, nil
 }
+
+// a storage error assigned, in a deferred closure, to a variable that is not a named result: the caller never sees it
+func Bad_E5Rstorage_deferredlost(id string) (string, error) {
+	var err error
+	defer func() {
+		if _, derr := ctlStorageCall(id); derr != nil && err == nil {
+			err = derr
+		}
+	}()
+	return id, err
+}
+
+func Good_E5Rstorage_deferrednamed(id string) (v string, err error) {
+	defer func() {
+		if _, derr := ctlStorageCall(id); derr != nil && err == nil {
+			err = derr
+		}
+	}()
+	return id, nil
+}
